@@ -31,7 +31,7 @@ class Path(object):
         self.worklist = worklist
         self.decisions = []
         self.solver = z3.Solver()
-        self.solver.set('timeout', timeout_ms)
+        self.solver.set('timeout', min(timeout_ms, 3000))   # feasibility only; unknown counts as feasible
         self.pc = []
         self.stats = stats
         self.names = {}
